@@ -178,7 +178,7 @@ fn slots(s: &ScoreState) -> [u32; 6] {
 }
 
 fn shapes(ctx: &Ctx) -> Vec<Shape> {
-    let max_obj = ctx.pick(5, 8);
+    let max_obj = ctx.pick(7, 12);
     let mut v = Vec::new();
     for circles in 0..=max_obj {
         for sliders in 0..=ctx.pick(2, 3) {
@@ -198,14 +198,14 @@ fn shapes(ctx: &Ctx) -> Vec<Shape> {
     for combo in 0..=max_obj + 4 {
         v.push(Shape::Taiko { combo });
     }
-    for fruits in 0..=ctx.pick(4, 6) {
+    for fruits in 0..=ctx.pick(5, 9) {
         for droplets in 0..=2 {
-            for tiny in 0..=ctx.pick(4, 6) {
+            for tiny in 0..=ctx.pick(4, 9) {
                 v.push(Shape::Catch { fruits, droplets, tiny });
             }
         }
     }
-    for objects in 0..=ctx.pick(5, 8) {
+    for objects in 0..=ctx.pick(7, 12) {
         for holds in 0..=ctx.pick(2, 3).min(objects) {
             v.push(Shape::Mania { objects, holds });
         }
